@@ -115,6 +115,8 @@ pub fn run_c04(ctx: &Ctx) -> i32 {
     st = st.merge(drive(ctx, &Core::with_entries(1, core_hi, vec!["execute"]), &g, false, &homes, &sampler));
     st = st.merge(drive(ctx, &Core::with_entries(1, core_hi - 2, vec!["instantiate", "migrate", "wasm-sudo", "sudo-wasm", "execute-helper", "migrate-helper"]), &g, false, &homes, &sampler));
     st = st.merge(drive(ctx, &Rich::new(1, rich_hi, vec!["execute", "instantiate"]), &all[..ctx.tier.pick(1, 3)], false, &homes, &sampler));
+    // a chain whose Api normalises addresses: events carry the address, not the message's spelling
+    st.programs += super::envelope::normalising_api_events_stage(ctx);
     finish(
         ctx,
         &st,
